@@ -103,6 +103,15 @@ Theorem C20_actions_outcome : forall clk att tocode fuel req abst,
 Proof. exact (fun clk att tocode fuel req abst => conj (nanosleep_ev_outcome clk fuel req) (timed_ev_outcome clk att tocode fuel abst)). Qed.
 Print Assumptions C20_actions_outcome.
 
+(** the [rem] argument of nanosleep: NULL, a separate object or the request object itself ([nanosleep(&ts, &ts)]) -
+    same outcome, namely [nanosleep] of the request as it was at the call, and no object is written *)
+Theorem C20_sleep_rem_irrelevant : forall clk fuel m preq prem,
+  fst (nanosleep_mem clk fuel m preq prem) = nanosleep clk fuel (m preq) /\
+  (forall prem', fst (nanosleep_mem clk fuel m preq prem') = fst (nanosleep_mem clk fuel m preq prem)) /\
+  (forall l, snd (nanosleep_mem clk fuel m preq prem) l = m l).
+Proof. exact nanosleep_rem_irrelevant. Qed.
+Print Assumptions C20_sleep_rem_irrelevant.
+
 (** a completed sleep that made r readings:  read 0; (read k; yield) for k = 1..r-2; read r-1.  The number of yields is
     exactly readings - 2, and every yield lies between reading k and reading k+1 *)
 Theorem C20_sleep_yields_between_reads : forall clk fuel req r y,
